@@ -34,6 +34,22 @@ pub const VALUES: &[&str] = &[
 ];
 pub const SMALL_VALUES: &[&str] = &["", "0", "1", "18446744073709551616", "x", "1:2", "a=b", "1.5-"];
 
+pub fn long_values() -> Vec<String> {
+    let mut out = Vec::new();
+    for clip in [8usize, 16, 24, 32, 48, 64, 80, 100, 128, 255, 256, 512, 1024, 4096] {
+        for shift in 0..4usize {
+            for ch in ["\u{e4}", "\u{4fa1}", "\u{1d11e}"] {
+                out.push(format!("{}{}", "x".repeat(shift), ch.repeat((clip + 8) / ch.len() + 1)));
+            }
+        }
+        out.push("x".repeat(clip + 1));
+        out.push("9".repeat(clip + 1));
+        out.push(format!("{}=v", "k".repeat(clip)));
+        out.push(format!("1:{}", "2".repeat(clip)));
+    }
+    out
+}
+
 type Run = Box<dyn Fn(Vec<Frame>) -> Result<(), String> + Sync + Send>;
 
 pub struct Decoder {
@@ -474,6 +490,26 @@ fn enumerate_decoder(d: &Decoder, tier: Tier) -> Acc {
             convert(d, e, base_bin, &mut acc, false);
             acc.field_lists += 1;
             acc.nontrivial += 1;
+        }
+        // long values (round 6: an error path that clips the offending value at a byte offset): ASCII and
+        // multi-byte text of 2-, 3- and 4-byte characters, shifted so that a character straddles every
+        // likely clip length; as a single field and as an edit of the valid base reply
+        let longs = long_values();
+        let long_refs: Vec<&str> = longs.iter().map(|s| s.as_str()).collect();
+        for k in &d.keys {
+            for v in &long_refs {
+                convert(d, &[(k.to_string(), v.to_string())], None, &mut acc, false);
+                acc.field_lists += 1;
+            }
+        }
+        for i in 0..base.len() {
+            for v in &long_refs {
+                let mut x = base.clone();
+                x[i].1 = v.to_string();
+                convert(d, &x, base_bin, &mut acc, false);
+                acc.field_lists += 1;
+                acc.nontrivial += 1;
+            }
         }
         // pairs of edits: second edit over the small value pool
         let step = tier.pick(if firsts.len() > 1500 { 23 } else { 5 }, if firsts.len() > 1500 { 4 } else { 1 });
